@@ -615,3 +615,65 @@ package moss
 //@   attr only-labels notReadOnly readOnlyFlag
 //@   requires m != nil && m.options != nil && readOnlyMode() == m.options.ReadOnly
 //@   modifies *
+
+// ---- compaction: merging the store's stacks with the incoming ones (C07, C11) -------------------
+
+// Child maps never hold nil values (obligation at every map update under
+// contract, assumed when reading).
+//@ nonnil-values map[string]*segmentStack, map[string]*Footer, map[string]*collection, map[string]*batch
+
+// The footer of child c that belongs to the same incarnation as the incoming
+// child stack (a child deleted and recreated must not inherit old segments).
+//@ pure func liveChildFooter(footer *Footer, c string, incar uint64) *Footer =
+//@     ite(footer != nil && has(footer.ChildFooters, c) && footer.ChildFooters[c].incarNum == incar, footer.ChildFooters[c], nil)
+//@ pure func footerStack(footer *Footer) *segmentStack = ite(footer != nil, footer.ss, nil)
+// rv.a == fs.a[sp:] ++ higher.a  (fs.a taken as empty when there is no footer stack)
+//@ pure func mergedSeq(rv *segmentStack, fs *segmentStack, sp int, higher *segmentStack) bool =
+//@     rv != nil && rv.incarNum == higher.incarNum &&
+//@     (fs == nil ==> len(rv.a) == len(higher.a) && (forall j int :: 0 <= j && j < len(higher.a) ==> rv.a[j] == higher.a[j])) &&
+//@     (fs != nil ==> len(rv.a) == len(fs.a) - sp + len(higher.a) &&
+//@         (forall i int :: 0 <= i && i < len(fs.a) - sp ==> rv.a[i] == fs.a[sp + i]) &&
+//@         (forall j int :: 0 <= j && j < len(higher.a) ==> rv.a[len(fs.a) - sp + j] == higher.a[j]))
+
+//@ func (s *Store) mergeSegStacks(footer *Footer, splicePoint int, higher *segmentStack) (rv, rvBase *segmentStack)
+//@   props C07 C11
+//@   requires @args higher != nil && (footer != nil && footer.ss != nil ==> 0 <= splicePoint && splicePoint <= len(footer.ss.a))
+//@   ensures @fresh rv != nil && fresh(rv) && fresh(arr(rv.a))
+//@   ensures @concat mergedSeq(rv, footerStack(footer), splicePoint, higher)
+//@   ensures @base (rvBase != nil) <==> (footerStack(footer) != nil && splicePoint > 0)
+//@   ensures @baseSeq rvBase != nil ==> fresh(rvBase) && rvBase.a == footer.ss.a[0:splicePoint]
+//@   ensures @children forall c string :: has(higher.childSegStacks, c) ==> has(rv.childSegStacks, c) &&
+//@       mergedSeq(rv.childSegStacks[c], footerStack(liveChildFooter(footer, c, higher.childSegStacks[c].incarNum)), splicePoint, higher.childSegStacks[c])
+//@   loop 1: modifies rv.childSegStacks
+//@   loop 1: invariant rv != nil && fresh(rv) && fresh(arr(rv.a)) && mergedSeq(rv, footerStack(footer), splicePoint, higher)
+//@   loop 1: invariant rvBase != nil ==> fresh(rvBase)
+//@   loop 1: invariant rv.childSegStacks != nil ==> sinceLoop(rv.childSegStacks)
+//@   loop 1: invariant @children forall c string :: visited(c) ==> has(rv.childSegStacks, c) &&
+//@       mergedSeq(rv.childSegStacks[c], footerStack(liveChildFooter(footer, c, higher.childSegStacks[c].incarNum)), splicePoint, higher.childSegStacks[c])
+
+// ---- building the footer of a persistence round (C04, C11, C12) --------------------------------------
+
+// f starts out as the store's footer for the same incarnation: same segment
+// locations (room for the new ones), linked back to it.
+//@ pure func extendsFooter(f *Footer, storeFooter *Footer, ss *segmentStack) bool =
+//@     f != nil && f.refs == 1 && f.incarNum == ss.incarNum &&
+//@     f.PrevFooterOffset == ite(storeFooter != nil, storeFooter.filePos, 0) &&
+//@     len(f.SegmentLocs) == ite(storeFooter != nil, len(storeFooter.SegmentLocs), 0) &&
+//@     cap(f.SegmentLocs) >= len(f.SegmentLocs) + len(ss.a) &&
+//@     (storeFooter != nil ==> (forall i int :: 0 <= i && i < len(storeFooter.SegmentLocs) ==> f.SegmentLocs[i] == storeFooter.SegmentLocs[i]))
+
+//@ func (s *Store) buildNewFooter(storeFooter *Footer, ss *segmentStack) *Footer
+//@   props C04 C11 C12
+//@   requires ss != nil
+//@   ensures @fresh result != nil && fresh(result) && fresh(arr(result.SegmentLocs))
+//@   ensures @extends extendsFooter(result, storeFooter, ss)
+//@   ensures @prevLink result.PrevFooterOffset == ite(storeFooter != nil, storeFooter.filePos, 0)
+//@   ensures @children forall c string :: has(ss.childSegStacks, c) ==> has(result.ChildFooters, c) &&
+//@       extendsFooter(result.ChildFooters[c], liveChildFooter(storeFooter, c, ss.childSegStacks[c].incarNum), ss.childSegStacks[c])
+//@   ensures @noOthers forall c string :: has(result.ChildFooters, c) ==> has(ss.childSegStacks, c)
+//@   loop 1: modifies footer.ChildFooters
+//@   loop 1: invariant footer != nil && fresh(footer) && fresh(arr(footer.SegmentLocs)) && extendsFooter(footer, storeFooter, ss)
+//@   loop 1: invariant footer.ChildFooters != nil ==> sinceLoop(footer.ChildFooters)
+//@   loop 1: invariant forall c string :: visited(c) ==> has(footer.ChildFooters, c) &&
+//@       extendsFooter(footer.ChildFooters[c], liveChildFooter(storeFooter, c, ss.childSegStacks[c].incarNum), ss.childSegStacks[c])
+//@   loop 1: invariant forall c string :: has(footer.ChildFooters, c) ==> visited(c)
